@@ -40,6 +40,11 @@ def _seed_outdir(rng, bp, valid, toggles=()):
     return step
 
 
+# the `par` arm needs the cfg(pavex_verif) scheduler hook in the tree under test
+import os as _os
+HAS_PAR_HOOK = _os.path.exists("/repo/rustdoc/rustdoc_processor/src/verif_sched.rs")
+
+
 class Planner:
     def __init__(self, prop, tier, seed, corpus):
         self.prop, self.tier, self.seed = prop, tier, seed
@@ -100,7 +105,7 @@ class Planner:
             steps.append({"op": "edit", "proj": "p0", "edit": e})  # toggle back
             steps.append(_ex(rng, bp))
         elif tail == 2:
-            e2 = rng.choice([x["name"] for x in self.edits if x["name"] != e and
+            e2 = rng.choice([x["name"] for x in self.edits if x["name"] != e and x["name"] != "dep_dup_id" and
                              not (x["kind"] == "move" and e.startswith("move"))])
             steps.append({"op": "edit", "proj": "p0", "edit": e2})
             steps.append(_ex(rng, bp))
@@ -333,6 +338,33 @@ class Planner:
                  _ex(rng, bp, diag="diag.dot"), _ex(rng, bp, mode="check", diag="diag.dot")]
         self.add("bad_diag", rng, steps)
 
+    def par(self, i):
+        if not HAS_PAR_HOOK:
+            return
+        """Thread interleavings INSIDE one pavexc process: the parallel sections of the documentation
+        pipeline (cache look-ups, indexing) run under the deterministic scheduler of the verification
+        build, one `par_seed` = one interleaving. The batch of crates indexed together is made
+        non-trivial by evicting a toolchain crate (and sometimes a third-party one); in C09 runs the
+        path dependency usually carries an annotation conflict, so that one task of the section pushes
+        error diagnostics while the others are being indexed."""
+        rng = self.rng("par", i)
+        c09 = self.prop == "C09"
+        bp = rng.choice(self.valid + self.invalid[:6]) if c09 else rng.choice(self.dep_heavy if rng.chance(1, 2) else self.valid)
+        steps = []
+        conflict = c09 and rng.chance(3, 4)
+        if conflict:
+            steps.append({"op": "edit", "proj": "p0", "edit": "dep_dup_id"})
+        for _ in range(2 if rng.chance(2, 3) else 1):
+            steps.append({"op": "evict", "what": "toolchain", "name": rng.weighted([(6, "alloc"), (1, "core"), (1, "std")])})
+            if rng.chance(1, 3):
+                steps.append({"op": "evict", "what": "crate", "name": rng.choice(self.corpus["evictable_crates"])})
+            st = _ex(rng, bp, diag=_diag_gen(rng))
+            st["par_seed"] = rng.below(1 << 30)
+            steps.append(st)
+        if not conflict and bp in self.valid:
+            steps.append(_ex(rng, bp, mode="check"))
+        self.add("par", rng, steps)
+
     def empty(self, i):
         rng = self.rng("empty", i)
         bp = rng.choice(self.valid)
@@ -372,6 +404,8 @@ class Planner:
                 self.shrink_deps(i)
             for i in range(4 if q else 40):
                 self.overlap(i)
+            for i in range(3 if q else 40):
+                self.par(i)
             self.ui_mix(24 if q else None, 3, 1 if q else 3, "accept")
             if not q:
                 for rep in range(1, 9):
@@ -415,6 +449,8 @@ class Planner:
                 self.shrink_deps(100 + i)
             for i in range(3 if q else 30):
                 self.overlap(100 + i)
+            for i in range(6 if q else 80):
+                self.par(100 + i)
             self.ui_mix(24 if q else None, 3, 1 if q else 3, "reject")
             if not q:
                 for rep in range(1, 8):
